@@ -65,6 +65,12 @@ def main():
     saved = os.dup(1), os.dup(2)
     os.dup2(fd, 1)
     os.dup2(fd, 2)
+    if (trial.get("env") or {}).get("_stdout") == "closed_pipe":
+        # lian ... | head -1 : standard output is a pipe whose reader has gone away (standard error still goes to the file)
+        pr, pw = os.pipe()
+        os.close(pr)
+        os.dup2(pw, 1)
+        os.close(pw)
     # the console streams keep the encoding and error policy the interpreter chose at start-up (locale, PYTHONIOENCODING)
     sys.stdout = os.fdopen(1, "w", closefd=False, encoding=sys.__stdout__.encoding or "utf-8", errors=sys.__stdout__.errors or "strict")
     sys.stderr = os.fdopen(2, "w", closefd=False, encoding=sys.__stderr__.encoding or "utf-8", errors=sys.__stderr__.errors or "backslashreplace")
@@ -132,7 +138,7 @@ def main():
     stdio = mask(open(stdio_path, errors="replace").read())
     files = digest_workspace(trial["ws"], mask)
     rec = {"status": status, "detail": mask(detail), "stdio_sha": hashlib.sha256(stdio.encode()).hexdigest(), "stdio_tail": stdio[-600:],
-           "files": files}
+           "stdio_len": len(stdio), "files": files}
     cs = getattr(_patch_clock, "state", None)
     if cs is not None:
         rec["clock"] = {"reads": cs["calls"], "simulated_seconds": cs["now"]}
